@@ -288,7 +288,8 @@ def flow_layer(events, cid, info, vc, hook_types):
                             "proof": nz(kv.get("proof")), "raw_proof": nz(kv.get("raw_proof")),
                             "tls_name": nz(kv.get("identifier_tls_alpn")) if chal == "tls-alpn-01" else "none",
                             "is_clean_hook": kv.get("is_clean_hook", "none"), "ok": ended_well or bool(allowed)})
-            elif role == "postop":
+            elif role == "postop" and kv.get("is_success") in ("true", "false"):
+                # (a hook that is also listed for file events runs at those events too: there `is_success` does not exist)
                 files = {f["path"]: f for f in e.get("files_first") or e.get("files") or []}
                 kf = files.get(kv.get("private_key_path"))
                 cf = files.get(kv.get("certificate_path"))
